@@ -2,8 +2,7 @@
    - bsearch: `while lo < hi { mid = midf lo hi; if right mid { lo = mid + 1 } else { hi = mid } }`
      (separated.rs select{0,1}_upper_bound, simple.rs select0/select1, interleaved.rs binary_search_lines and
      select0, few.rs select0/select1 all have this shape; they differ in `midf` and in the test);
-   - the select-cache builder of separated.rs (same algorithm as separated_512.rs with another line size);
-   - the ascending in-line scan with a running remainder (simple.rs).
+   - the select-cache builder of separated.rs (same algorithm as separated_512.rs with another line size).
    Definitions only. *)
 From Coq Require Import List Arith Lia Bool.
 From ZV.C04 Require Import Spec Model.
@@ -42,14 +41,3 @@ Definition build_sel_cache_g (g : nat -> nat) (strict : bool) (L max_rank nl : n
   let slots := (max_rank + L - 1) / L in
   if slots =? 0 then [nl]
   else 0 :: sel_fill_g g strict L nl (slots - 1) 1 0 ++ [nl].
-
-(* for j in 0..W { let ones = popcount(word); if remaining < ones { return base + j*64 + select_in_word(word, remaining) }
-   remaining -= ones } *)
-Fixpoint scan_asc (ws : list (list bool)) (base j remaining : nat) : option nat :=
-  match ws with
-  | [] => None
-  | w :: t =>
-      let ones := popcount w in
-      if remaining <? ones then Some (base + j * 64 + select_in_word w remaining)
-      else scan_asc t base (S j) (remaining - ones)
-  end.
